@@ -38,7 +38,7 @@ def time_of(cfg, i):
 
 @st.composite
 def configs(draw, wrappers=("interval",), allow_cache0=True, allow_dt=True, allow_tol=True, allow_halfway=True,
-            shapes=None, levy=None, allow_user=True, max_pieces=4000, dtypes=("float64", "float32")):
+            shapes=None, levy=None, allow_user=True, max_pieces=4000, dtypes=("float64", "float32"), lattice=True):
     wrapper = draw(st.sampled_from(list(wrappers)))
     t0 = draw(st.sampled_from([0.0, 0.0, -1.0, 0.25, 3.0]))
     span = draw(st.sampled_from([1.0, 1.0, 0.5, 2.0, 10.0]))
@@ -94,10 +94,16 @@ def configs(draw, wrappers=("interval",), allow_cache0=True, allow_dt=True, allo
         # keep the end points and the grid on the tolerance lattice (the library's rounding grid 10^-ndigits, which is
         # coarser than tol itself when tol is not a power of ten): the property speaks of resolved times
         nd = ndigits_of(cfg["tol"])
-        cfg["t0"] = round(cfg["t0"], nd)
-        cfg["t1"] = round(cfg["t0"] + span, nd)
-        if not cfg["t1"] > cfg["t0"]:
-            cfg["t1"] = cfg["t0"] + 1.0
+        if lattice:
+            cfg["t0"] = round(cfg["t0"], nd)
+            cfg["t1"] = round(cfg["t0"] + span, nd)
+            if not cfg["t1"] > cfg["t0"]:
+                cfg["t1"] = cfg["t0"] + 1.0
+        elif draw(st.booleans()):
+            # crash-freedom is claimed for every documented configuration, also when the end points of the interval are not
+            # on the tolerance grid (values are only specified at resolved times, termination everywhere)
+            cfg["t0"] = cfg["t0"] + draw(st.sampled_from([0.1234561, 1e-7, 0.00049, 0.3333333]))
+            cfg["t1"] = cfg["t0"] + span + draw(st.sampled_from([0.0, 0.0004996, 1e-7]))
         cfg["grid"] = draw(st.sampled_from([g for g in (100, 1000, 10 ** 6) if g <= round(1 / cfg["tol"])] or [100]))
     return cfg
 
